@@ -8,6 +8,21 @@ from vectorizers import HistogramVectorizer, KDEVectorizer
 from vectorizers._vectorizers import find_bin_boundaries
 
 
+def expand_seq(s):
+    """A sequence is a list of numbers, or {"gen": [n, p, q, lo, scale, m, drift]} for a long one:
+    x_i = lo + ((i * p) % q) * scale + (i // m) * drift  (every term is a dyadic number: exact in binary64)."""
+    if isinstance(s, dict):
+        n, p_, q, lo, scale, m, drift = s["gen"]
+        return [lo + ((i * p_) % q) * scale + (i // m) * drift for i in range(n)]
+    return s
+
+
+def expand_perm(p, n):
+    if isinstance(p, dict):
+        return [int(i) for i in np.random.RandomState(p["seed"]).permutation(n)]
+    return p
+
+
 def rat(x):
     x = float(x)
     if x == float("inf"):
@@ -78,21 +93,63 @@ def run_hist(c):
     return {"ok": out}
 
 
+def as_kde_type(seq, t):
+    if t == "ndarray":
+        return np.asarray(seq, dtype=np.float64)
+    if t == "list":
+        return [float(x) for x in seq]
+    if t == "tuple":
+        return tuple(float(x) for x in seq)
+    if t == "f32":                       # only used when every value is exactly representable in float32
+        return np.asarray(seq, dtype=np.float32)
+    if t == "int":                       # only used when every value is an integer
+        return np.asarray(seq, dtype=np.int64)
+    raise ValueError(t)
+
+
+def fl(rows):
+    return [[float(v) for v in r] for r in np.asarray(rows)]
+
+
 def run_kde(c):
-    train = [np.asarray(s, dtype=np.float64) for s in c["train"]]
-    m = KDEVectorizer(bandwidth=c["bandwidth"], n_components=c["n"], evaluation_grid_strategy=c["grid"])
-    m.fit(train)
+    import vectorizers.kde_vectorizer as kv
+    train = [as_kde_type(s, c.get("train_type", "ndarray")) for s in c["train"]]
+    m = KDEVectorizer(bandwidth=c["bandwidth"], n_components=c["n"], evaluation_grid_strategy=c["grid"],
+                      kernel=c.get("kernel", "gaussian"))
+    seen = {}
+    orig = kv.jackknife_bandwidths
+
+    def spy(data, bandwidths, *a, **k):          # observe the candidates fit() hands to the jack-knife search
+        seen["cands"] = [float(b) for b in bandwidths]
+        res = orig(data, bandwidths, *a, **k)
+        seen["lik"] = [float(v) for v in res]
+        return res
+    kv.jackknife_bandwidths = spy
+    try:
+        ret = m.fit(train)
+    finally:
+        kv.jackknife_bandwidths = orig
+    out = {"fit_returns_self": ret is m, "bandwidth": float(m.bandwidth_), "grid": [float(g) for g in m.evaluation_grid_],
+           "cands": seen.get("cands"), "lik": seen.get("lik")}
+    rows = {}
+    for t in c.get("types", ["ndarray"]):
+        rows[t] = fl(m.transform([as_kde_type(s, t) for s in c["test"]]))
+    out["rows_by_type"] = rows
     test = [np.asarray(s, dtype=np.float64) for s in c["test"]]
-    rows = m.transform(test)
-    perm_rows = m.transform([t[np.asarray(p, dtype=np.int64)] for t, p in zip(test, c["perms"])])
-    return {"ok": {"bandwidth": float(m.bandwidth_), "grid": [float(g) for g in m.evaluation_grid_],
-                   "rows": [[float(v) for v in r] for r in rows],
-                   "perm_rows": [[float(v) for v in r] for r in perm_rows]}}
+    out["rows"] = fl(m.transform(test))
+    out["perm_rows"] = fl(m.transform([t[np.asarray(p, dtype=np.int64)] for t, p in zip(test, c["perms"])]))
+    out["rev_rows"] = fl(m.transform([t[::-1].copy() for t in test]))
+    out["dup_rows"] = fl(m.transform([np.concatenate([t, t]) for t in test]))
+    out["rows_single"] = [fl(m.transform([t]))[0] for t in test]
+    return {"ok": out}
 
 
 cases = json.load(open(sys.argv[1]))
 res = []
 for c in cases:
+    c["test"] = [expand_seq(s) for s in c["test"]]
+    if "perms" in c:
+        c["perms"] = [expand_perm(p, len(s)) for p, s in zip(c["perms"], c["test"])]
     try:
         res.append(run_hist(c) if c["kind"] == "hist" else run_kde(c))
     except Exception as e:
